@@ -1,6 +1,6 @@
 (* Properties/C05.v — write gating.  Statements only. *)
 From Verif Require Import Lib.Bytes Model.Path Model.Fs Model.Session Gen.Consts Spec.ProtoSpec
-  Proofs.SessionProofs Proofs.Examples Proofs.UploadProofs.
+  Proofs.SessionProofs Proofs.Examples Proofs.UploadProofs Proofs.ConfineProofs Proofs.EffectProofs.
 
 (* unless writing was enabled, no byte stream changes anything: the world after any connection,
    for any input, is the world before it *)
@@ -47,7 +47,66 @@ Theorem C05_structure_ops : forall c w k rq,
   inodes (o_world o) = inodes w /\ o_close o = false /\ o_conn o = k /\ (o_out o = enc_result32 false -> o_world o = w).
 Proof. exact structure_ops_frame. Qed.
 
+(* MKDIR reports truthfully: the success code exactly when the directory was made, the failure code exactly when it
+   was not - and then nothing changed; the connection is untouched either way *)
+Theorem C05_mkdir_truthful : forall c w k p, allow_write c = true ->
+  let o := step c w k (RMkdir p) in
+  o_conn o = k /\ o_close o = false /\
+  match fs_mkdir (tmut c) (plen c) w (abs_path c (rooted_elems p)) with
+  | Ok w' => o_out o = enc_result32 true /\ o_world o = w'
+  | Err _ => o_out o = enc_result32 false /\ o_world o = w
+  end.
+Proof. exact mkdir_request. Qed.
+
+(* ... and has exactly its named effect: the entry did not exist and is an empty directory now; its parent has the new
+   time and that one more name; every lookup that leaves the path at any element (beside) finds the same node as
+   before; the ancestors keep their time and names; no file content and no inode number changes *)
+Theorem C05_mkdir_effect : forall tm pl w p w', fs_mkdir tm pl w p = Ok w' ->
+  exists par e m cs,
+    p = par ++ [e] /\
+    walk (tree w) par = Ok (Dir m cs) /\ find_child cs e = None /\ walk (tree w) p = Err ENOENT /\
+    walk (tree w') p = Ok (Dir tm []) /\
+    walk (tree w') par = Ok (Dir tm (set_child cs e (Dir tm []))) /\
+    map fst (set_child cs e (Dir tm [])) = map fst cs ++ [e] /\
+    (forall q, beside p q -> walk (tree w') q = walk (tree w) q) /\
+    (forall l x r m0 cs0, par = l ++ x :: r -> walk (tree w) l = Ok (Dir m0 cs0) ->
+       exists cs', walk (tree w') l = Ok (Dir m0 cs') /\ map fst cs' = map fst cs0) /\
+    inodes w' = inodes w /\ next_ino w' = next_ino w.
+Proof. exact mkdir_effect. Qed.
+
+(* DELETE_FILE / RMDIR: the served root itself is refused; otherwise the answer is truthful in the same sense *)
+Theorem C05_remove_truthful : forall c w k p rq, allow_write c = true -> rq = RDeleteFile p \/ rq = RRmdir p ->
+  let o := step c w k rq in
+  o_conn o = k /\ o_close o = false /\
+  if is_nil (rooted_elems p) then o_out o = enc_result32 false /\ o_world o = w else
+  match fs_remove (tmut c) (plen c) w (abs_path c (rooted_elems p)) with
+  | Ok w' => o_out o = enc_result32 true /\ o_world o = w'
+  | Err _ => o_out o = enc_result32 false /\ o_world o = w
+  end.
+Proof. exact remove_request. Qed.
+
+(* ... and the named effect: the entry was a file or an empty directory; its parent has the new time and that name
+   removed (the name no longer resolves when names are distinct, as in every real directory); everything beside the
+   path and the ancestors as for MKDIR *)
+Theorem C05_remove_effect : forall tm pl w p w', fs_remove tm pl w p = Ok w' ->
+  exists par e m cs n,
+    p = par ++ [e] /\
+    walk (tree w) par = Ok (Dir m cs) /\ find_child cs e = Some n /\ walk (tree w) p = Ok n /\
+    (match n with Dir _ (_ :: _) => False | _ => True end) /\
+    walk (tree w') par = Ok (Dir tm (del_child cs e)) /\
+    map fst (del_child cs e) = remove_first e (map fst cs) /\
+    (NoDup (map fst cs) -> walk (tree w') p = Err ENOENT) /\
+    (forall q, beside p q -> walk (tree w') q = walk (tree w) q) /\
+    (forall l x r m0 cs0, par = l ++ x :: r -> walk (tree w) l = Ok (Dir m0 cs0) ->
+       exists cs', walk (tree w') l = Ok (Dir m0 cs') /\ map fst cs' = map fst cs0) /\
+    inodes w' = inodes w /\ next_ino w' = next_ino w.
+Proof. exact remove_effect. Qed.
+
 Print Assumptions C05_readonly.
+Print Assumptions C05_mkdir_truthful.
+Print Assumptions C05_mkdir_effect.
+Print Assumptions C05_remove_truthful.
+Print Assumptions C05_remove_effect.
 Print Assumptions C05_refused.
 Print Assumptions C05_reads_pure.
 Print Assumptions C05_create.
@@ -57,3 +116,15 @@ Print Assumptions C05_structure_ops.
 Example C05_ex_refused :
   o_out (step (ex_cfg false) ex_world conn0 (RMkdir [47;110])) = [255;255;255;255].
 Proof. vm_compute. reflexivity. Qed.
+
+(* non-vacuity: with writing enabled MKDIR "/n" succeeds on the example world, "/n" is an empty directory afterwards and
+   "/a" is the same node; RMDIR "/d" (not empty) is refused and DELETE_FILE "/a" removes it *)
+Example C05_ex_effect :
+  let c := ex_cfg true in
+  let o := step c ex_world conn0 (RMkdir [47;110]) in
+  o_out o = enc_result32 true
+  /\ walk (tree (o_world o)) [ex_name_R; [110]] = Ok (Dir 999 [])
+  /\ walk (tree (o_world o)) [ex_name_R; ex_name_a] = walk (tree ex_world) [ex_name_R; ex_name_a]
+  /\ o_out (step c ex_world conn0 (RRmdir ex_path_d)) = enc_result32 false
+  /\ walk (tree (o_world (step c ex_world conn0 (RDeleteFile ex_path_a)))) [ex_name_R; ex_name_a] = Err ENOENT.
+Proof. vm_compute. repeat split; reflexivity. Qed.
